@@ -173,6 +173,28 @@ def run(rep):
     inloop = [c for c in ar if broker.has_guard(cf, c.bb, r"^Some=discr\(Vec::pop\(")]
     ok = len(ar) == 2 and len(inloop) == 1 and bool(broker.has_guard(cf, inloop[0].bb, r"^True=Compute::add\("))
     rep.check(ok, "C20-R3", cf.def_, "expand-only-new-layouts", "the work-list must expand a referenced type only when Compute::add reported a new layout (termination on recursive types)", detail={"sites": len(ar)})
+    # ... and every new layout IS expanded, every popped reference IS added: on no path from the pop back to the pop
+    # (or out of the loop's body) is the add / the expansion of a newly inserted layout bypassed
+    pops = [c for c in cf.calls if c.name == "pop"]
+    adds = [c for c in cf.calls if c.name == "add" and (c.callee or "").endswith("Compute::add")]
+    ok = len(pops) == 1 and len(adds) == 1 and len(inloop) == 1
+    if ok:
+        pop, add, exp = pops[0], adds[0], inloop[0]
+        # blocks reachable from the add call without passing the expansion, restricted to the true edge of its result
+        sw = [u for u in cf.live_blocks() if cf.blocks[u]["t"]["k"] == "switch" and ((cf.switch_guard(u) or {}).get("call") is not None and cf.switch_guard(u)["call"].bb == add.bb)]
+        ok = len(sw) == 1
+        if ok:
+            tv = [v for v in set(cf.succ(sw[0])) if cf.edge_label(sw[0], v) == [True]]
+            ok = len(tv) == 1 and pop.bb not in cf.reachable(tv[0], without_nodes={exp.bb}) and not (set(cf.exits()) & cf.reachable(tv[0], without_nodes={exp.bb, pop.bb}))
+        # every popped reference reaches Compute::add
+        psw = [u for u in cf.live_blocks() if cf.blocks[u]["t"]["k"] == "switch" and (cf.switch_guard(u) or {}).get("kind") == "variant" and any("Vec::pop(" in d for d in mir.describe_place(cf, cf.switch_guard(u)["place"], 8, set()))]
+        ok2 = len(psw) == 1
+        if ok2:
+            sv = [v for v in set(cf.succ(psw[0])) if "Some" in (cf.edge_label(psw[0], v) or [])]
+            ok2 = len(sv) == 1 and pop.bb not in cf.reachable(sv[0], without_nodes={add.bb})
+        ok = ok and ok2
+    rep.check(ok, "C20-R3", cf.def_, "expand-every-new-layout", "every reference popped from the work-list must be added to the hash input and every newly added layout must be expanded (no path bypasses Compute::add or add_references): otherwise a type reachable only through the bypassed one does not influence the id",
+              detail={"pops": len(pops), "adds": len(adds)})
     ad = prog.one(r"^aldrin_core::introspection::type_id::Compute::add$")
     ins = [c for c in ad.calls if c.name == "insert" and any(x == "self.referenced" for x in ad.describe(c.args[0]))]
     rep.check(len(ins) == 1 and ins[0].dest == [0], "C20-R3", ad.def_, "add-returns-newly-inserted", "Compute::add must return whether the layout was newly inserted into the ordered set", detail={})
